@@ -72,11 +72,17 @@ func (s *syncStore[H]) Append(ctx context.Context, headers ...H) error {
 	for {
 		headPtr := s.head.Load()
 		head = *headPtr
-		if headers[0].Height() < head.Height() {
+		// headers at or below the head are known already (a concurrent caller may have appended a prefix of
+		// this very range, or they belong to the tail side): only the part above the head moves it
+		above := headers
+		for len(above) > 0 && above[0].Height() <= head.Height() {
+			above = above[1:]
+		}
+		if len(above) == 0 {
 			break
 		}
 
-		for _, h := range headers {
+		for _, h := range above {
 			if h.Height() != head.Height()+1 {
 				return &errNonAdjacent{
 					Head:      head.Height(),
